@@ -14,7 +14,7 @@ import extract_units
 VERIF = os.path.dirname(os.path.dirname(os.path.abspath(__file__)))
 LEAN = os.path.join(VERIF, "lean")
 CACHE = os.path.join(LEAN, ".lake", "exttie")
-DEPS = ["Rngs/Model/Words.lean", "Rngs/Model/RandCore.lean", "Rngs/Model/Xoshiro.lean", "Rngs/Model/XorShift.lean", "Rngs/Model/Jitter.lean",
+DEPS = ["Rngs/Model/Words.lean", "Rngs/Model/RandCore.lean", "Rngs/Model/Xoshiro.lean", "Rngs/Model/XorShift.lean", "Rngs/Model/Jitter.lean", "Rngs/Model/Hc128.lean",
         "Rngs/Lib/XorLinear.lean", "Rngs/Lib/ExtTie.lean"]
 ALLOWED_AXIOMS = {"propext", "Classical.choice", "Quot.sound"}
 
